@@ -198,6 +198,49 @@ def big_program(n, m):
     return src, "\n".join(exp) + "\n"
 
 
+# ---- maps whose size crosses the growth thresholds of the table (load factor 7/8 of 4, 8, 16 ... 512 buckets): keys that are equal
+# by the language's `==` but differ in representation (0 and -0, 1 and 1.0, a computed and a literal number), keys of other kinds,
+# absent keys; insert / count by iteration / remove / re-insert, then half of the entries removed (tombstones) and put back
+MAP_SIZES = [0, 1, 3, 4, 6, 7, 8, 13, 14, 15, 27, 28, 29, 55, 56, 57, 111, 112, 113, 114, 223, 224, 225, 300, 449]
+MAP_PROBES = [("0 * -1", 0.0), ("0", 0.0), ("1.0", 1.0), ("2 - 1", 1.0), ("N - 1", "last"), ("N", "n"), ("0.5", 0.5), ("0 - 1", -1.0),
+              ("'0'", ("s", "0")), ("nil", ("nil",)), ("true", ("b", True)), ("N / 2", "half")]
+
+
+def bigmap_program(n, pi):
+    pe, pk = MAP_PROBES[pi]
+    pe = pe.replace("N", str(n))
+    k = {"last": float(n - 1), "n": float(n), "half": n / 2}.get(pk, pk) if isinstance(pk, str) else pk
+    src = ("let m = {};\nfor i in %d.times() { m[i] = i * 2; }\nlet k = %s;\n" % (n, pe) +
+           "print(m.len(), m.has(k), m.get(k));\n"
+           "print(m.insert(k, 'v'), m.len(), m.get(k), m.has(k));\n"
+           "let c = 0; for kv in m { if kv[0] == k { c = c + 1; } } print(c);\n"
+           "print(m.remove(k), m.len(), m.has(k), m.get(k));\n"
+           "m[k] = 'w'; print(m.len(), m[k]);\n"
+           "for i in %d.times() { if i - (i / 2).floor() * 2 == 1 { m.remove(i); } }\n"
+           "print(m.len(), m.has(k), m.get(k));\n"
+           "for i in %d.times() { m[i] = i; }\n"
+           "print(m.len(), m.has(k), m.get(k), m.has(0), m.get(0 * -1));\n" % (n, n))
+    fv = lambda v: "nil" if v is None else (fmt_num(v) if isinstance(v, (int, float)) else v)
+    fb = lambda b: "true" if b else "false"
+    m = {float(i): i * 2 for i in range(n)}
+    out = ["%d %s %s" % (len(m), fb(k in m), fv(m.get(k)))]
+    old = m.get(k); m[k] = "v"
+    out.append("%s %d v true" % (fv(old), len(m)))
+    out.append("1")
+    m.pop(k)
+    out.append("v %d false nil" % len(m))
+    m[k] = "w"
+    out.append("%d w" % len(m))
+    for i in range(n):
+        if i % 2 == 1:
+            m.pop(float(i))     # the probe, when it is an odd key of the range, goes with them
+    out.append("%d %s %s" % (len(m), fb(k in m), fv(m.get(k))))
+    for i in range(n):
+        m[float(i)] = i
+    out.append("%d %s %s %s %s" % (len(m), fb(k in m), fv(m.get(k)), fb(0.0 in m), fv(m.get(0.0))))
+    return src, "\n".join(out) + "\n"
+
+
 # ---- lists produced by the library (not by a literal) are full citizens: every producer, also with an empty result, then mutated
 PRODUCERS = [("[]", []), ("[1, 2]", [1, 2]), ("[].iter().list()", []), ("[1, 2].iter().list()", [1, 2]), ("0.times().list()", []), ("3.times().list()", [0, 1, 2]),
              ("[].iter().into(List.collect)", []), ("[5].iter().into(List.collect)", [5]), ("[1, 2].iter().filter(|x| x > 5).list()", []), ("[1, 2, 3].iter().filter(|x| x > 1).list()", [2, 3]),
@@ -266,6 +309,9 @@ class C11(Check):
         for n in BIG_SIZES:
             for m in BIG_MODS:
                 yield ("big", n, m)
+        for n in MAP_SIZES:
+            for pi in range(len(MAP_PROBES)):
+                yield ("bigmap", n, pi)
         for pi in range(len(PRODUCERS)):
             for k in range(1, 4):
                 for muts in itertools.product(MUTS, repeat=k):
@@ -302,13 +348,15 @@ class C11(Check):
     def describe(self, spec):
         if spec[0] == "big":
             return "list of %d records with %s distinct keys: stable sorts, rev, slice, has/index, reduce" % (spec[1], spec[2] or "all")
+        if spec[0] == "bigmap":
+            return "map of %d number keys probed with the key %s: get/has/insert/count/remove/re-insert, half removed and put back" % (spec[1], MAP_PROBES[spec[2]][0])
         if spec[0] == "produced":
             return "list produced by %s then %s" % (PRODUCERS[spec[1]][0], list(spec[2]))
         return L.render(self.ast(spec))[0].replace("\n", " ")[:500]
 
     def build(self, spec):
-        if spec[0] in ("big", "produced"):
-            src, want = big_program(spec[1], spec[2]) if spec[0] == "big" else produced_program(spec[1], spec[2])
+        if spec[0] in ("big", "produced", "bigmap"):
+            src, want = {"big": big_program, "produced": produced_program, "bigmap": bigmap_program}[spec[0]](spec[1], spec[2])
             return [{"src": src, "step_limit": 3000000}], ("ok", want, None)
         stmts = self.ast(spec)
         src, _ = L.render(stmts)
@@ -331,7 +379,7 @@ class C11(Check):
         if not ok:
             v = Verdict(False, True, "mismatch", "expected class=%s%s out=%r; got class=%s out=%r err=%r %s" % (
                 cls, "(%s)" % ecls if ecls else "", out, r.get("class"), r.get("out"), r.get("err", "")[-160:], r.get("panic") or ""))
-            v.finding = attribute(spec, exp, r, None if spec[0] in ("big", "produced") else self.ast(spec))
+            v.finding = attribute(spec, exp, r, None if spec[0] in ("big", "produced", "bigmap") else self.ast(spec))
             return v
         return Verdict(True, True, "%s:%s" % (spec[0], cls))
 
